@@ -1,4 +1,4 @@
-use ntex_bytes::{ByteString, Bytes};
+use ntex_bytes::{Buf, ByteString, Bytes};
 
 use super::{UserProperty, packet, packet::Packet};
 use crate::{error::DecodeError, types::packet_type, utils::Decode};
@@ -6,8 +6,14 @@ use crate::{error::DecodeError, types::packet_type, utils::Decode};
 pub(super) fn decode_packet(mut src: Bytes, first_byte: u8) -> Result<Packet, DecodeError> {
     match first_byte {
         packet_type::PUBACK => Ok(Packet::PublishAck(packet::PublishAck::decode(&mut src)?)),
-        packet_type::PINGREQ => Ok(Packet::PingRequest),
-        packet_type::PINGRESP => Ok(Packet::PingResponse),
+        packet_type::PINGREQ => {
+            ensure!(!src.has_remaining(), DecodeError::InvalidLength);
+            Ok(Packet::PingRequest)
+        }
+        packet_type::PINGRESP => {
+            ensure!(!src.has_remaining(), DecodeError::InvalidLength);
+            Ok(Packet::PingResponse)
+        }
         packet_type::SUBSCRIBE => Ok(Packet::Subscribe(packet::Subscribe::decode(&mut src)?)),
         packet_type::SUBACK => {
             Ok(Packet::SubscribeAck(packet::SubscribeAck::decode(&mut src)?))
@@ -19,7 +25,9 @@ pub(super) fn decode_packet(mut src: Bytes, first_byte: u8) -> Result<Packet, De
             Ok(Packet::UnsubscribeAck(packet::UnsubscribeAck::decode(&mut src)?))
         }
         packet_type::CONNECT => {
-            Ok(Packet::Connect(Box::new(packet::Connect::decode(&mut src)?)))
+            let packet = packet::Connect::decode(&mut src)?;
+            ensure!(!src.has_remaining(), DecodeError::InvalidLength);
+            Ok(Packet::Connect(Box::new(packet)))
         }
         packet_type::CONNACK => {
             Ok(Packet::ConnectAck(Box::new(packet::ConnectAck::decode(&mut src)?)))
